@@ -291,6 +291,9 @@ def InlineBuf(obj:Logic):
     return "assign {} = {};\n".format(getParentWireName(obj, obj.r), getParentWireName(obj, obj.a))
 
 def InlineSignExtend(obj:Logic):
+    if (obj.r.getWidth() <= obj.a.getWidth()):
+        # no bit to replicate ({0{..}} and negative counts are illegal): r takes the low bits of a
+        return "assign {} = {};\n".format(getParentWireName(obj, obj.r), getParentWireName(obj, obj.a))
     return "assign {} = {{ {{ {} {{ {} }} }}, {} }};\n".format(getParentWireName(obj, obj.r), obj.r.getWidth() - obj.a.getWidth(),  getBitSelect(obj, obj.a, obj.a.getWidth()-1), getParentWireName(obj, obj.a))
 
 def InlineZeroExtend(obj:Logic):
